@@ -1,5 +1,426 @@
-"""Python-AST -> Lean formula translator (DESIGN.md section 2.2).  Filled in with the formula-level properties."""
+"""
+Python-AST -> Lean formula translator (DESIGN.md section 2.2).
+
+On every run `regenerate()` parses /repo/qats/**/*.py, extracts the anchored expressions listed in ANCHORS,
+translates straight-line arithmetic into operator-polymorphic Lean definitions and writes
+  lean/Qats/Gen/Formulas.lean      the definitions (core Lean only)
+  lean/Qats/Gen/DriverGen.lean     line-protocol handlers `gen.<name> <float bits…>` executing them at α := Float
+(only rewritten when the text changes, so unchanged sources cost no rebuild).
+
+The property theorems in Qats/Props are stated about these generated definitions; an edit of a formula in /repo
+is therefore re-proved (or fails to be) by the kernel on the next run.
+
+Supported: names, `self.attr`, numeric literals (emitted as scientific literals), + - * / **, unary minus,
+comparisons, calls of np.log/exp/sqrt/log10/sin/cos/radians, scipy gamma (`gamma`, `gammafunc`), np.pi,
+local single-assignment inlining, subscripts `x[mask]` (element-wise reading).  Anything else raises
+TranslateError for that anchor: its definition is then missing from the generated file, the proofs depending on it
+fail to build, and the check proceeds to the failing-input search (DESIGN.md section 2.5).
+"""
+import ast
+import os
+import re
+
+from . import core
+
+GEN_DIR = os.path.join(core.LEAN, "Qats", "Gen")
+
+
+class TranslateError(Exception):
+    pass
+
+
+# name, file, function (qualified), pick, [inline], [rename], [bool]
+#   pick = ("assign", "<target text>", k)   RHS of the k-th assignment (source order) to that target
+#        = ("return", k)                    value of the k-th return statement
+#        = ("retitem", k, i)                i-th element of the tuple returned by the k-th return
+A = []
+
+
+def anchor(name, params, file, func, pick, inline="all", rename=None, ret="α"):
+    """`params` is the fixed parameter list of the generated definition (so that models and theorems using it keep
+    compiling when an edit of the source adds or drops a variable); a free variable outside the list is an error."""
+    A.append(dict(name=name, params=params.split(), file=file, func=func, pick=pick, inline=inline,
+                  rename=rename or {}, ret=ret))
+
+
+SN = "qats/fatigue/sn.py"
+anchor("sn_loga2", "loga1 m1 m2 nswitch", SN, "SNCurve.__init__", ("assign", "loga2", 0), inline=[])
+anchor("sn_sswitch", "loga1 m1 nswitch", SN, "SNCurve.__init__", ("assign", "sswitch", 0), inline=[])
+anchor("sn_a2", "loga2", SN, "SNCurve.__init__", ("assign", "a2", 0), inline=[])
+anchor("sn_n_single", "loga1 m1 s tcorr", SN, "SNCurve.n", ("assign", "n", 0), inline=[])
+anchor("sn_mask", "s sswitch tcorr", SN, "SNCurve.n", ("assign", "ind", 0), inline=[], ret="Bool")
+anchor("sn_n_upper", "loga1 m1 s tcorr", SN, "SNCurve.n", ("assign", "n[ind]", 0), inline=[])
+anchor("sn_n_lower", "loga2 m2 s tcorr", SN, "SNCurve.n", ("assign", "n[~ind]", 0), inline=[])
+anchor("sn_strength", "loga m n tcorr", SN, "SNCurve.fatigue_strength", ("assign", "s", 0), inline=[])
+anchor("sn_strength_mask", "n nswitch", SN, "SNCurve.fatigue_strength", ("iftest", 1, 1), inline=[], ret="Bool")
+anchor("sn_tcorr", "t t_exp t_ref", SN, "SNCurve.thickness_correction", ("assign", "tcorr", 0), inline=[])
+anchor("sn_tcorr_mask", "t t_ref", SN, "SNCurve.thickness_correction", ("iftest", 0), inline=[], ret="Bool")
+anchor("sn_mw_single", "a1 h m1 q td v0", SN, "minersum_weibull", ("assign", "d", 1), inline=[],
+       rename={"sn.m1": "m1", "sn.a1": "a1"})
+anchor("sn_mw_bilinear", "a1 a2 g1 g2 m1 m2 q td v0", SN, "minersum_weibull", ("assign", "d", 0), inline=[],
+       rename={"sn.m1": "m1", "sn.a1": "a1", "sn.m2": "m2", "sn.a2": "a2"})
+anchor("sn_mw_x", "h q sswitch", SN, "minersum_weibull", ("callarg", "cigf", 0, 1), inline=[], rename={"sn.sswitch": "sswitch"})
+anchor("sn_mw_a1", "h m1", SN, "minersum_weibull", ("callarg", "cigf", 0, 0), inline=[], rename={"sn.m1": "m1"})
+anchor("sn_mw_a2", "h m2", SN, "minersum_weibull", ("callarg", "igf", 0, 0), inline=[], rename={"sn.m2": "m2"})
+
+WB = "qats/stats/weibull.py"
+anchor("wb_kurt", "shape", WB, "Weibull.kurt", ("return", 0))
+anchor("wb_skew", "shape", WB, "Weibull.skew", ("return", 0))
+anchor("wb_std", "scale shape", WB, "Weibull.std", ("return", 0))
+anchor("wb_mean", "loc scale shape", WB, "Weibull.mean", ("return", 0))
+anchor("wb_cdf", "loc scale shape x", WB, "Weibull.cdf", ("assign", "p", 0), inline=[])
+anchor("wb_pdf", "loc scale shape x", WB, "Weibull.pdf", ("assign", "p", 0), inline=[])
+anchor("wb_invcdf", "loc p scale shape", WB, "Weibull.invcdf", ("assign", "x[(p >= 0.0) & (p < 1.0)]", 0), inline=[])
+anchor("w2g_loc", "loc n scale shape", WB, "weibull2gumbel", ("assign", "gloc", 0), inline=[])
+anchor("w2g_scale", "n scale shape", WB, "weibull2gumbel", ("assign", "gscale", 0), inline=[])
+anchor("wb_pwm_c", "m100 m110 m120 m130", WB, "pwm", ("assign", "c", 0), inline=[])
+anchor("wb_pwm_a", "m100 m110 m120 m130", WB, "pwm", ("assign", "a", 0), inline=[])
+anchor("wb_pwm_b", "a c m100", WB, "pwm", ("assign", "b", 0), inline=[])
+anchor("wb_pwm2_c", "m100 m110", WB, "pwm2", ("assign", "c", 0), inline=[])
+anchor("wb_pwm2_b", "c m100", WB, "pwm2", ("assign", "b", 0), inline=[])
+anchor("wb_msm_b", "g1 g2 m2", WB, "msm", ("assign", "b", 0), inline=[])
+anchor("wb_msm_a", "a1 b g1", WB, "msm", ("assign", "a", 0), inline=[])
+anchor("wb_msm_g1", "c", WB, "msm", ("assign", "g1", 0), inline=[])
+anchor("wb_msm_g2", "c", WB, "msm", ("assign", "g2", 0), inline=[])
+anchor("wb_msm_eq", "shape shape0", WB, "msm.f", ("assign", "eq", 0), inline=[])
+
+GU = "qats/stats/gumbel.py"
+GM = "qats/stats/gumbelmin.py"
+CO = "qats/fatigue/corrections.py"
+anchor("gh_corrected", "means ranges uts", CO, "goodman_haigh", ("assign", "corrected_ranges", 0), inline=[])
+MO = "qats/motions.py"
+
+
+# ----------------------------------------------------------------------------------------------------------
+# AST utilities
+# ----------------------------------------------------------------------------------------------------------
+def find_func(tree, qual):
+    node = tree
+    for part in qual.split("."):
+        found = None
+        for ch in ast.walk(node) if node is tree else ast.iter_child_nodes(node):
+            if isinstance(ch, (ast.FunctionDef, ast.ClassDef)) and ch.name == part:
+                found = ch
+                break
+        if found is None:
+            # nested function anywhere below
+            for ch in ast.walk(node):
+                if isinstance(ch, (ast.FunctionDef, ast.ClassDef)) and ch.name == part and ch is not node:
+                    found = ch
+                    break
+        if found is None:
+            raise TranslateError("function %s not found" % qual)
+        node = found
+    return node
+
+
+def stmts_in_order(fn):
+    """all statements of the function in source order (nested blocks included, nested defs excluded)"""
+    out = []
+
+    def rec(body):
+        for s in body:
+            out.append(s)
+            if isinstance(s, (ast.FunctionDef, ast.ClassDef)):
+                continue
+            for fld in ("body", "orelse", "finalbody"):
+                if hasattr(s, fld):
+                    rec(getattr(s, fld))
+            if isinstance(s, ast.Try):
+                for h in s.handlers:
+                    rec(h.body)
+    rec(fn.body)
+    return out
+
+
+def norm(s):
+    return re.sub(r"\s+", " ", s.strip())
+
+
+def pick_expr(fn, pick):
+    st = stmts_in_order(fn)
+    kind = pick[0]
+    if kind == "assign":
+        tgt, k = norm(pick[1]), pick[2]
+        hits = []
+        for s in st:
+            if isinstance(s, ast.Assign):
+                for t in s.targets:
+                    if norm(ast.unparse(t)) == tgt:
+                        hits.append((s, s.value))
+                    elif isinstance(t, ast.Tuple) and isinstance(s.value, ast.Tuple):
+                        for te, ve in zip(t.elts, s.value.elts):
+                            if norm(ast.unparse(te)) == tgt:
+                                hits.append((s, ve))
+            elif isinstance(s, ast.AugAssign) and norm(ast.unparse(s.target)) == tgt:
+                hits.append((s, ast.BinOp(left=s.target, op=s.op, right=s.value)))
+        if len(hits) <= k:
+            raise TranslateError("assignment #%d to `%s` not found" % (k, tgt))
+        return hits[k]
+    if kind == "return":
+        hits = [(s, s.value) for s in st if isinstance(s, ast.Return) and s.value is not None]
+        if len(hits) <= pick[1]:
+            raise TranslateError("return #%d not found" % pick[1])
+        return hits[pick[1]]
+    if kind == "retitem":
+        hits = [(s, s.value) for s in st if isinstance(s, ast.Return) and isinstance(s.value, ast.Tuple)]
+        if len(hits) <= pick[1] or len(hits[pick[1]][1].elts) <= pick[2]:
+            raise TranslateError("return item not found")
+        return hits[pick[1]][0], hits[pick[1]][1].elts[pick[2]]
+    if kind == "iftest":
+        hits = [(s, s.test) for s in st if isinstance(s, ast.If)]
+        if len(hits) <= pick[1]:
+            raise TranslateError("if #%d not found" % pick[1])
+        s, t = hits[pick[1]]
+        if len(pick) > 2:
+            if not isinstance(t, ast.BoolOp) or len(t.values) <= pick[2]:
+                raise TranslateError("if-test operand not found")
+            t = t.values[pick[2]]
+        return s, t
+    if kind == "callarg":
+        fname, k, i = pick[1], pick[2], pick[3]
+        hits = []
+        for s in st:
+            if isinstance(s, (ast.FunctionDef, ast.ClassDef)):
+                continue
+            for n in ast.walk(s):
+                if isinstance(n, ast.Call) and norm(ast.unparse(n.func)) == fname:
+                    hits.append((s, n))
+        # de-duplicate (walk of nested statements sees the same call several times)
+        seen, uniq = set(), []
+        for s, n in hits:
+            if id(n) not in seen:
+                seen.add(id(n))
+                uniq.append((s, n))
+        if len(uniq) <= k or len(uniq[k][1].args) <= i:
+            raise TranslateError("call #%d of %s not found" % (k, fname))
+        return uniq[k][0], uniq[k][1].args[i]
+    raise TranslateError("bad pick " + repr(pick))
+
+
+def local_env(fn, upto):
+    """most recent simple assignments `name = expr` before statement `upto` (source order)"""
+    env = {}
+    for s in stmts_in_order(fn):
+        if s is upto:
+            break
+        if isinstance(s, ast.Assign) and len(s.targets) == 1:
+            t = s.targets[0]
+            if isinstance(t, ast.Name):
+                env[t.id] = s.value
+            elif isinstance(t, ast.Tuple) and isinstance(s.value, ast.Tuple) and len(t.elts) == len(s.value.elts):
+                for te, ve in zip(t.elts, s.value.elts):
+                    if isinstance(te, ast.Name):
+                        env[te.id] = ve
+    return env
+
+
+FUNCS1 = {"np.log": "TranscOps.log", "np.exp": "TranscOps.exp", "np.sqrt": "TranscOps.sqrt", "np.log10": "TranscOps.log10",
+          "np.sin": "TranscOps.sin", "np.cos": "TranscOps.cos", "gamma": "TranscOps.gamma", "gammafunc": "TranscOps.gamma",
+          "abs": "TranscOps.abs", "np.abs": "TranscOps.abs"}
+
+
+def lit(v):
+    f = float(v)
+    if f != f or f in (float("inf"), float("-inf")):
+        raise TranslateError("non-finite literal")
+    if f < 0:
+        return "(-%s)" % lit(-f)
+    r = repr(f)
+    if "e" in r:
+        m, e = r.split("e")
+        if "." not in m:
+            m += ".0"
+        return "(%se%d : α)" % (m, int(e))
+    return "(%s : α)" % r
+
+
+class Tr:
+    def __init__(self, anchor, env, params_fixed=None):
+        self.a = anchor
+        self.env = env
+        self.params = []
+        self.is_bool = False
+        self.depth = 0
+
+    def param(self, name):
+        name = self.a["rename"].get(name, name)
+        name = re.sub(r"[^A-Za-z0-9_]", "_", name)
+        if name in ("fun", "let", "in", "at", "end", "from", "open", "do", "then", "else", "if", "by", "show", "have"):
+            name += "_"
+        if name not in self.params:
+            self.params.append(name)
+        return name
+
+    def tr(self, e):
+        self.depth += 1
+        if self.depth > 400:
+            raise TranslateError("expression too deep (recursive inlining?)")
+        try:
+            return self._tr(e)
+        finally:
+            self.depth -= 1
+
+    def _tr(self, e):
+        if isinstance(e, ast.Constant):
+            if isinstance(e.value, bool) or not isinstance(e.value, (int, float)):
+                raise TranslateError("unsupported constant %r" % (e.value,))
+            return lit(e.value)
+        if isinstance(e, ast.Name):
+            inline = self.a["inline"]
+            if e.id in self.env and (inline == "all" or e.id in inline):
+                return self.tr(self.env[e.id])
+            return self.param(e.id)
+        if isinstance(e, ast.Attribute):
+            txt = norm(ast.unparse(e))
+            if txt in ("np.pi", "math.pi"):
+                return "(TranscOps.pi : α)"
+            if txt in self.a["rename"]:
+                return self.param(txt)
+            if isinstance(e.value, ast.Name) and e.value.id == "self":
+                return self.param(e.attr)
+            raise TranslateError("unsupported attribute " + txt)
+        if isinstance(e, ast.Subscript):
+            # element-wise reading of  x[mask]
+            return self.tr(e.value)
+        if isinstance(e, ast.UnaryOp):
+            if isinstance(e.op, ast.USub):
+                return "(-%s)" % self.tr(e.operand)
+            if isinstance(e.op, ast.UAdd):
+                return self.tr(e.operand)
+            raise TranslateError("unsupported unary op")
+        if isinstance(e, ast.BinOp):
+            if isinstance(e.op, ast.Pow):
+                ex = e.right
+                if isinstance(ex, ast.Constant) and isinstance(ex.value, (int, float)) and float(ex.value) in (2.0, 3.0, 4.0):
+                    b = self.tr(e.left)
+                    return "(" + " * ".join([b] * int(float(ex.value))) + ")"
+                return "(TranscOps.rpow %s %s)" % (self.tr(e.left), self.tr(e.right))
+            op = {ast.Add: "+", ast.Sub: "-", ast.Mult: "*", ast.Div: "/"}.get(type(e.op))
+            if op is None:
+                raise TranslateError("unsupported operator " + type(e.op).__name__)
+            return "(%s %s %s)" % (self.tr(e.left), op, self.tr(e.right))
+        if isinstance(e, ast.Compare):
+            if len(e.ops) != 1:
+                raise TranslateError("chained comparison")
+            op = {ast.Lt: "<", ast.LtE: "≤", ast.Gt: ">", ast.GtE: "≥"}.get(type(e.ops[0]))
+            if op is None:
+                raise TranslateError("unsupported comparison")
+            self.is_bool = True
+            return "(decide (%s %s %s))" % (self.tr(e.left), op, self.tr(e.comparators[0]))
+        if isinstance(e, ast.Call):
+            fn = norm(ast.unparse(e.func))
+            if e.keywords:
+                raise TranslateError("keyword arguments in call of " + fn)
+            if fn in FUNCS1 and len(e.args) == 1:
+                return "(%s %s)" % (FUNCS1[fn], self.tr(e.args[0]))
+            if fn in ("np.radians", "np.deg2rad") and len(e.args) == 1:
+                return "(%s * ((TranscOps.pi : α) / (180.0 : α)))" % self.tr(e.args[0])
+            if fn == "float" and len(e.args) == 1:
+                return self.tr(e.args[0])
+            raise TranslateError("unsupported call " + fn)
+        raise TranslateError("unsupported expression " + type(e).__name__)
+
+
+_cache = {}
+
+
+def parse(file):
+    import warnings
+    path = os.path.join(core.REPO, file)
+    st = os.stat(path)
+    key = (path, st.st_mtime_ns, st.st_size)
+    if key not in _cache:
+        with warnings.catch_warnings():
+            warnings.simplefilter("ignore")
+            _cache[key] = ast.parse(open(path).read())
+    return _cache[key]
+
+
+def translate_anchor(a):
+    tree = parse(a["file"])
+    fn = find_func(tree, a["func"])
+    stmt, expr = pick_expr(fn, a["pick"])
+    env = local_env(fn, stmt)
+    t = Tr(a, env)
+    body = t.tr(expr)
+    extra = [p for p in t.params if p not in a["params"]]
+    if extra:
+        raise TranslateError("free variable(s) %s outside the declared parameters %s" % (extra, a["params"]))
+    is_bool = t.is_bool and body.startswith("(decide")
+    if is_bool != (a["ret"] == "Bool"):
+        raise TranslateError("expected a %s-valued expression" % a["ret"])
+    src = norm(ast.unparse(expr))
+    return dict(name=a["name"], params=a["params"], ret=a["ret"], ok=True,
+                text="/-- `%s` in `%s` (%s):  `%s` -/\ndef %s%s : %s :=\n  %s\n" % (
+                    a["pick"][1] if a["pick"][0] == "assign" else a["pick"][0], a["func"], a["file"],
+                    src.replace("-/", "- /")[:300], a["name"], sig_of(a), a["ret"], body))
+
+
+def sig_of(a):
+    return (" (%s : α)" % " ".join(a["params"])) if a["params"] else ""
+
+
+def stub(a, err):
+    """the source construct could not be translated: keep the library compiling with a placeholder about which
+    nothing useful can be proved; the error is reported by `regenerate()` and treated as a broken tie"""
+    body = "false" if a["ret"] == "Bool" else "((0.0 : α) / (0.0 : α))"
+    return dict(name=a["name"], params=a["params"], ret=a["ret"], ok=False,
+                text="/-- UNTRANSLATABLE (`%s`, %s): %s -/\ndef %s%s : %s :=\n  %s\n" % (
+                    a["func"], a["file"], err.replace("-/", "- /")[:200], a["name"], sig_of(a), a["ret"], body))
+
+
+HEADER = """/-
+GENERATED by harness/translate.py from /repo on every check run — do not edit.
+Operator-polymorphic formulas (core Lean only): executed at α := Float by the driver, proved about over ℝ.
+-/
+import Qats.Prelude
+namespace Qats.Gen
+set_option linter.unusedVariables false
+variable {α : Type} [Add α] [Sub α] [Mul α] [Div α] [Neg α] [LT α] [LE α] [DecidableLT α] [DecidableLE α]
+  [OfScientific α] [TranscOps α]
+
+"""
 
 
 def regenerate():
-    return dict(anchors=0, changed=[])
+    os.makedirs(GEN_DIR, exist_ok=True)
+    defs, errors = [], {}
+    for a in A:
+        try:
+            defs.append(translate_anchor(a))
+        except TranslateError as e:
+            errors[a["name"]] = str(e)
+            defs.append(stub(a, str(e)))
+        except (OSError, SyntaxError) as e:
+            errors[a["name"]] = "cannot read/parse %s: %s" % (a["file"], e)
+            defs.append(stub(a, str(e)))
+    text = HEADER + "\n".join(d["text"] for d in defs) + "\nend Qats.Gen\n"
+    drv = ["/- GENERATED by harness/translate.py — do not edit. -/", "import Qats.Gen.Formulas", "namespace Qats.Gen",
+           "open Qats", "", "def handleGen : List String → Option String"]
+    for d in defs:
+        n = len(d["params"])
+        pat = " :: ".join(['"gen.%s"' % d["name"]] + ["a%d" % i for i in range(n)] + ["[]"])
+        binds = "".join("    let x%d ← parseFloatBits? a%d\n" % (i, i) for i in range(n))
+        call = "%s (α := Float) %s" % (d["name"], " ".join("x%d" % i for i in range(n)))
+        if d["ret"] == "Bool":
+            res = 'some (if %s then "ok 1" else "ok 0")' % call
+        else:
+            res = 'some ("ok " ++ showFloatBits (%s))' % call
+        drv.append("  | %s => do\n%s    %s" % (pat, binds, res))
+    drv += ["  | _ => none", "", "end Qats.Gen", ""]
+    changed = []
+    for fn, content in (("Formulas.lean", text), ("DriverGen.lean", "\n".join(drv))):
+        p = os.path.join(GEN_DIR, fn)
+        old = open(p).read() if os.path.exists(p) else None
+        if old != content:
+            with open(p, "w") as f:
+                f.write(content)
+            changed.append(fn)
+    return dict(anchors=len(A), translated=len([d for d in defs if d["ok"]]), errors=errors, changed=changed,
+                signatures={d["name"]: d["params"] for d in defs})
+
+
+if __name__ == "__main__":
+    import json
+    print(json.dumps(regenerate(), indent=1))
